@@ -916,61 +916,69 @@ Section Serve.
     destruct path as [|c p']; [|reflexivity]. exfalso. apply Hw. now apply Hr.
   Qed.
 
+  (* match_path is route_path short of the "" -> "/" step *)
+  Lemma match_path_cases path raw :
+    match_path path raw = route_path path raw \/ match_path path raw = [].
+  Proof.
+    unfold route_path, match_path. destruct raw; cbn [is_nil]; [|now left]. destruct path; [now right|now left].
+  Qed.
+
+  (* SmartRedirectSlashes never answers a request that some route of the method matches *)
+  Lemma smart_quiet m me path raw :
+    cands m me (path_segs (route_path path raw)) <> [] -> smart_redirects m me (match_path path raw) = false.
+  Proof.
+    intro Hc. unfold smart_redirects. destruct (match_path_cases path raw) as [E|E]; rewrite E.
+    - destruct (cands m me (path_segs (route_path path raw))); [congruence|]. cbn [is_nil]. now rewrite andb_false_r.
+    - cbn [length Nat.ltb Nat.leb]. now rewrite andb_false_r.
+  Qed.
+
   (* one request, whatever the middlewares asked before routing *)
   Lemma serve_spec m me wire pre ar ap : wf_mux m ->
     match set_path wire with
     | None => serve pick m me wire pre ar ap = None
     | Some (path, raw) =>
       let segs := path_segs (route_path path raw) in
+      let sp := match_path path raw in
       let n := asking (mws m) pre in
       exists o, serve pick m me wire pre ar ap = Some o /\
         match o_out o with
         | Handled h vs hp =>
-          smart_redirects m me path = false /\ o_ran o = rec_ids (mws m) /\
+          o_ran o = rec_ids (mws m) /\
           exists r capt, In r (cands m me segs) /\ r_h r = h /\ captured (r_pat r) wire = Some capt /\
             vs = map (rename (opt_name (catchall_name (r_pat r)))) capt /\
             hp = goa_render (r_pat r) /\ o_post o = goa_render (r_pat r) /\
-            (wire <> [] -> o_pre o = repeat (hp, vs) n)
-        | NotFound e => smart_redirects m me path = false /\ o_ran o = rec_ids (mws m) /\
+            o_pre o = repeat (hp, vs) n
+        | NotFound e => smart_redirects m me sp = false /\ o_ran o = rec_ids (mws m) /\
             cands m me segs = [] /\ other_method_matches m segs = false /\ e = response_encoder ar ap /\
-            (wire <> [] -> o_pre o = repeat ([], []) n /\ o_post o = [])
-        | MethodNotAllowed => smart_redirects m me path = false /\ o_ran o = rec_ids (mws m) /\
+            o_pre o = repeat ([], []) n /\ o_post o = []
+        | MethodNotAllowed => smart_redirects m me sp = false /\ o_ran o = rec_ids (mws m) /\
             cands m me segs = [] /\ other_method_matches m segs = true /\
-            (wire <> [] -> o_pre o = repeat ([], []) n /\ o_post o = [])
-        | Redirected loc => smart_redirects m me path = true /\ loc = hex_escape_non_ascii (toggle_slash path) /\
-            o_ran o = rec_ids (before_smart (mws m))
+            o_pre o = repeat ([], []) n /\ o_post o = []
+        | Redirected loc => smart_redirects m me sp = true /\ cands m me segs = [] /\
+            loc = hex_escape_non_ascii (toggle_slash sp) /\ o_ran o = rec_ids (before_smart (mws m))
         end
     end.
   Proof.
-    intros [Hr Hk]. unfold serve. destruct (set_path wire) as [[path raw]|] eqn:Esp; [|reflexivity].
-    destruct (smart_redirects m me path) eqn:Esm.
-    { eexists. split; [reflexivity|]. cbn [o_out o_ran]. repeat split. }
+    intros [Hr Hk]. unfold serve. destruct (set_path wire) as [[path raw]|] eqn:Esp; [|reflexivity]. cbv zeta.
+    destruct (smart_redirects m me (match_path path raw)) eqn:Esm.
+    { eexists. split; [reflexivity|]. cbn [o_out o_ran]. split; [reflexivity|]. split; [|split; reflexivity].
+      destruct (cands m me (path_segs (route_path path raw))) eqn:Ec; [reflexivity|].
+      rewrite smart_quiet in Esm; [discriminate|]. rewrite Ec. discriminate. }
     pose proof (find_route_ctx0 m me (route_path path raw)) as Hf.
     destruct (find_route pick m ctx0 me (route_path path raw)) as [c2 [r|]] eqn:Ef.
     - destruct Hf as (Hin & caps & Hm & ->). destruct (cands_in _ _ _ _ Hin) as (Hrin & Hme & _).
       destruct (Hr r Hrin) as [Hw Hg]. rewrite Hme in Hg.
-      eexists. split; [reflexivity|]. cbn [o_pre o_out o_post o_ran]. split; [reflexivity|]. split; [reflexivity|].
-      destruct (read_routed m me (match_path path raw) r caps Hw Hg) as [E1 E2].
+      eexists. split; [reflexivity|]. cbn [o_pre o_out o_post o_ran]. split; [reflexivity|].
+      destruct (read_routed m me (route_path path raw) r caps Hw Hg) as [E1 E2].
       exists r, (map (fun kv : bstr * bstr => (fst kv, unescape_or_id (snd kv))) caps).
       split; [assumption|]. split; [reflexivity|]. split; [unfold captured; now rewrite Esp, Hm|].
       split; [exact E2|]. split; [exact E1|]. split; [exact E1|].
-      intro Hne. rewrite (match_route_path _ _ _ Esp Hne), (pre_answer_found _ _ _ _ _ Ef). reflexivity.
+      rewrite (pre_answer_found _ _ _ _ _ Ef). reflexivity.
     - destruct Hf as (Hc & ->). eexists. split; [reflexivity|]. cbn [o_pre o_out o_post o_ran mna].
+      destruct (pre_answer_none _ _ _ _ Ef) as [-> ->].
       destruct (other_method_matches m (path_segs (route_path path raw))) eqn:O.
-      + split; [reflexivity|]. split; [reflexivity|]. split; [assumption|]. split; [reflexivity|]. intro Hne. rewrite (match_route_path _ _ _ Esp Hne).
-        destruct (pre_answer_none _ _ _ _ Ef) as [-> ->]. split; reflexivity.
-      + split; [reflexivity|]. split; [reflexivity|]. split; [assumption|]. split; [reflexivity|]. split; [reflexivity|]. intro Hne. rewrite (match_route_path _ _ _ Esp Hne).
-        destruct (pre_answer_none _ _ _ _ Ef) as [-> ->]. split; reflexivity.
-  Qed.
-
-  (* SmartRedirectSlashes never fires on a request that chi routes on the decoded path and
-     that some route of the method matches *)
-  Lemma smart_quiet m me wire path : set_path wire = Some (path, []) -> wire <> [] ->
-    cands m me (path_segs (route_path path [])) <> [] -> smart_redirects m me path = false.
-  Proof.
-    intros Esp Hne Hc. rewrite <- (match_route_path _ _ _ Esp Hne) in Hc. cbn [match_path is_nil] in Hc.
-    unfold smart_redirects. destruct (cands m me (path_segs path)); [congruence|].
-    cbn [is_nil]. now rewrite andb_false_r.
+      + split; [reflexivity|]. split; [reflexivity|]. split; [assumption|]. split; [reflexivity|]. split; reflexivity.
+      + split; [reflexivity|]. split; [reflexivity|]. split; [assumption|]. split; [reflexivity|]. split; [reflexivity|]. split; reflexivity.
   Qed.
 End Serve.
 
@@ -1073,7 +1081,6 @@ Section Built.
 
   Lemma built_request_served m r ip pre ar ap :
     wf_mux m -> In r (routes m) -> r_pat r = pat_of ip -> wf_ipat ip = true ->
-    existsb is_smart (mws m) = false \/ forallb neutral (ivals ip) = true ->
     exists o r' vs,
       serve pick m (r_meth r) (build_url ip) pre ar ap = Some o /\
       In r' (routes m) /\ r_meth r' = r_meth r /\
@@ -1082,35 +1089,28 @@ Section Built.
       o_pre o = repeat (goa_render (r_pat r'), vs) (asking (mws m) pre) /\ o_ran o = rec_ids (mws m) /\
       (r' = r -> vs = returned ip).
   Proof.
-    intros Hm Hin Hp Hw Hq. pose proof (captured_build_url ip Hw) as Hcap.
+    intros Hm Hin Hp Hw. pose proof (captured_build_url ip Hw) as Hcap.
     destruct (captured_matches _ _ _ Hcap) as (path & raw & Esp & Hmatch).
     pose proof (serve_spec pick pick_sound m (r_meth r) (build_url ip) pre ar ap Hm) as Hs. rewrite Esp in Hs.
     destruct Hs as (o & Eo & Hout).
     assert (Hc : In r (cands m (r_meth r) (path_segs (route_path path raw)))).
     { unfold cands. apply filter_In. split; [assumption|]. now rewrite method_eqb_refl, Hp, Hmatch. }
     destruct (o_out o) as [h vs hp| | |loc] eqn:Eout.
-    - destruct Hout as (_ & Hran & r' & capt & Hin' & <- & Hc' & -> & -> & Hpost & Hpre).
+    - destruct Hout as (Hran & r' & capt & Hin' & <- & Hc' & -> & -> & Hpost & Hpre).
       destruct (cands_in _ _ _ _ Hin') as (Hr' & Hme' & _).
       exists o, r', (map (rename (opt_name (catchall_name (r_pat r')))) capt).
       split; [assumption|]. split; [assumption|]. split; [assumption|]. split; [rewrite Hc'; discriminate|].
-      split; [exact Eout|]. split; [assumption|]. split; [exact (Hpre (build_url_nonempty ip))|]. split; [assumption|].
+      split; [exact Eout|]. split; [assumption|]. split; [exact Hpre|]. split; [assumption|].
       intros ->. rewrite Hp in *. rewrite Hcap in Hc'. injection Hc' as <-.
       unfold wf_ipat in Hw. apply andb_true_iff in Hw as [Hw _]. unfold returned.
       destruct (forallb neutral (ivals ip));
         apply rename_icaps; (apply wf_pattern_seg_wf || apply wf_pattern_ca_last); assumption.
     - destruct Hout as (_ & _ & Hout & _). rewrite Hout in Hc. contradiction.
     - destruct Hout as (_ & _ & Hout & _). rewrite Hout in Hc. contradiction.
-    - destruct Hout as (Hsm & _). exfalso. destruct Hq as [Hq|Hq].
-      + rewrite (no_smart_quiet _ _ _ Hq) in Hsm. discriminate.
-      + assert (Hl : forallb lit_plain ip = true).
-        { unfold wf_ipat in Hw. apply andb_true_iff in Hw as [Hw _]. now apply wf_pattern_lit_plain. }
-        rewrite (build_url_set_path ip Hl), (dsegs_neutral_iff ip Hl), Hq in Esp. injection Esp as <- <-.
-        rewrite (smart_quiet m (r_meth r) (build_url ip) (slash :: join_slash (dsegs ip))) in Hsm; [discriminate| |discriminate|].
-        * now rewrite (build_url_set_path ip Hl), (dsegs_neutral_iff ip Hl), Hq.
-        * intro E. rewrite E in Hc. contradiction.
+    - destruct Hout as (_ & Hout & _). rewrite Hout in Hc. contradiction.
   Qed.
 
-  (* dispatch: the handler reached belongs to the matching set; 404/405 iff it is empty *)
+  (* dispatch: the handler reached belongs to the matching set; 404/405/301 iff it is empty *)
   Lemma dispatch_sound m me wire pre ar ap o h vs hp : wf_mux m ->
     serve pick m me wire pre ar ap = Some o -> o_out o = Handled h vs hp ->
     exists path raw r, set_path wire = Some (path, raw) /\
@@ -1119,51 +1119,60 @@ Section Built.
     intros Hm Es Eo. pose proof (serve_spec pick pick_sound m me wire pre ar ap Hm) as Hs.
     destruct (set_path wire) as [[path raw]|]; [|congruence].
     destruct Hs as (o' & Eo' & Hout). rewrite Es in Eo'. injection Eo' as <-. rewrite Eo in Hout.
-    destruct Hout as (_ & _ & r & _ & Hin & Hh & _). now exists path, raw, r.
+    destruct Hout as (_ & r & _ & Hin & Hh & _). now exists path, raw, r.
   Qed.
 
-  (* when SmartRedirectSlashes does not answer (it is not mounted, or the path is not one it redirects) *)
   Lemma dispatch_unhandled_iff m me wire pre ar ap o path raw : wf_mux m ->
     serve pick m me wire pre ar ap = Some o -> set_path wire = Some (path, raw) ->
-    smart_redirects m me path = false ->
     let segs := path_segs (route_path path raw) in
+    let sp := match_path path raw in
     ((exists h vs hp, o_out o = Handled h vs hp) <-> cands m me segs <> []) /\
-    (o_out o = NotFound (response_encoder ar ap) <-> cands m me segs = [] /\ other_method_matches m segs = false) /\
-    (o_out o = MethodNotAllowed <-> cands m me segs = [] /\ other_method_matches m segs = true).
+    (o_out o = NotFound (response_encoder ar ap) <->
+       cands m me segs = [] /\ smart_redirects m me sp = false /\ other_method_matches m segs = false) /\
+    (o_out o = MethodNotAllowed <->
+       cands m me segs = [] /\ smart_redirects m me sp = false /\ other_method_matches m segs = true) /\
+    ((exists loc, o_out o = Redirected loc) <-> smart_redirects m me sp = true).
   Proof.
-    intros Hm Es Esp Hsm. pose proof (serve_spec pick pick_sound m me wire pre ar ap Hm) as Hs. rewrite Esp in Hs.
+    intros Hm Es Esp. pose proof (serve_spec pick pick_sound m me wire pre ar ap Hm) as Hs. rewrite Esp in Hs.
     destruct Hs as (o' & Eo' & Hout). rewrite Es in Eo'. injection Eo' as <-. cbv zeta.
     destruct (o_out o) as [h vs hp|e| |loc].
-    - destruct Hout as (_ & _ & r & _ & Hin & _). repeat split; try discriminate.
-      + intros _ E. rewrite E in Hin. contradiction.
-      + now exists h, vs, hp.
-      + intros [E _]. rewrite E in Hin. contradiction.
-      + intros [E _]. rewrite E in Hin. contradiction.
-    - destruct Hout as (_ & _ & Hc & Ho & -> & _). repeat split; try assumption; try discriminate.
-      + intros (h & vs & hp & E). discriminate.
-      + intro H. contradiction.
-      + intros [_ E]. congruence.
-    - destruct Hout as (_ & _ & Hc & Ho & _). repeat split; try assumption; try discriminate.
-      + intros (h & vs & hp & E). discriminate.
-      + intro H. contradiction.
-      + intros [_ E]. congruence.
-    - destruct Hout as (E & _). congruence.
+    - destruct Hout as (_ & r & _ & Hin & _).
+      assert (Hne : cands m me (path_segs (route_path path raw)) <> []) by (intro E; rewrite E in Hin; contradiction).
+      pose proof (smart_quiet m me path raw Hne) as Hq.
+      split; [split; [intros _; exact Hne|intros _; now exists h, vs, hp]|].
+      split; [split; [discriminate|intros (E & _); contradiction]|].
+      split; [split; [discriminate|intros (E & _); contradiction]|].
+      split; [intros (loc & E); discriminate|intro E; congruence].
+    - destruct Hout as (Hsm & _ & Hc & Ho & -> & _).
+      split; [split; [intros (h & vs & hp & E); discriminate|intro H; contradiction]|].
+      split; [split; [intros _; repeat split; assumption|reflexivity]|].
+      split; [split; [discriminate|intros (_ & _ & E); congruence]|].
+      split; [intros (loc & E); discriminate|intro E; congruence].
+    - destruct Hout as (Hsm & _ & Hc & Ho & _).
+      split; [split; [intros (h & vs & hp & E); discriminate|intro H; contradiction]|].
+      split; [split; [discriminate|intros (_ & _ & E); congruence]|].
+      split; [split; [intros _; repeat split; assumption|reflexivity]|].
+      split; [intros (loc & E); discriminate|intro E; congruence].
+    - destruct Hout as (Hsm & Hc & _).
+      split; [split; [intros (h & vs & hp & E); discriminate|intro H; contradiction]|].
+      split; [split; [discriminate|intros (_ & E & _); congruence]|].
+      split; [split; [discriminate|intros (_ & E & _); congruence]|].
+      split; [intros _; exact Hsm|intros _; now exists loc].
   Qed.
 
   Lemma dispatch_unique m me wire pre ar ap o path raw r : wf_mux m ->
     serve pick m me wire pre ar ap = Some o -> set_path wire = Some (path, raw) ->
-    smart_redirects m me path = false ->
     cands m me (path_segs (route_path path raw)) = [r] ->
     exists vs, o_out o = Handled (r_h r) vs (goa_render (r_pat r)) /\ o_post o = goa_render (r_pat r).
   Proof.
-    intros Hm Es Esp Hsm Hc. pose proof (serve_spec pick pick_sound m me wire pre ar ap Hm) as Hs. rewrite Esp in Hs.
+    intros Hm Es Esp Hc. pose proof (serve_spec pick pick_sound m me wire pre ar ap Hm) as Hs. rewrite Esp in Hs.
     destruct Hs as (o' & Eo' & Hout). rewrite Es in Eo'. injection Eo' as <-.
     destruct (o_out o) as [h vs hp|e| |loc].
-    - destruct Hout as (_ & _ & r' & capt & Hin & <- & _ & _ & -> & Hpost & _). rewrite Hc in Hin. destruct Hin as [<-|[]].
+    - destruct Hout as (_ & r' & capt & Hin & <- & _ & _ & -> & Hpost & _). rewrite Hc in Hin. destruct Hin as [<-|[]].
       now exists vs.
     - destruct Hout as (_ & _ & E & _). rewrite E in Hc. discriminate.
     - destruct Hout as (_ & _ & E & _). rewrite E in Hc. discriminate.
-    - destruct Hout as (E & _). congruence.
+    - destruct Hout as (_ & E & _). rewrite E in Hc. discriminate.
   Qed.
 End Built.
 
@@ -1374,8 +1383,8 @@ Proof.
   intros ar ap. eexists. split; [vm_compute; reflexivity|]. vm_compute. repeat split.
 Qed.
 
-(* what is left: Use(mw); Handle(GET,"/"); a request whose URL has an empty path
-   ("http://host"): chi routes "/" , the early call matches "" and finds nothing *)
+(* regression: Use(mw); Handle(GET,"/"); a request whose URL has an empty path
+   ("http://host"): chi routes "/" and so does the early call *)
 Definition w_mux4 : mux :=
   match use (MRec 0) new_muxer with Some m => handle GET [Lit []] 0 m | None => new_muxer end.
 
@@ -1387,10 +1396,50 @@ Qed.
 
 Lemma empty_path_served pick : sound pick -> forall ar ap,
   exists o, serve pick w_mux4 GET [] [true] ar ap = Some o /\
-    o_pre o = [([], [])] /\ o_out o = Handled 0 [] [slash] /\ o_post o = [slash] /\ goa_render [Lit []] = [slash].
+    o_pre o = [([slash], [])] /\ o_out o = Handled 0 [] [slash] /\ o_post o = [slash] /\ goa_render [Lit []] = [slash].
 Proof.
   intros Hs ar ap. rewrite (serve_single pick Hs w_mux4 _ eq_refl). eexists. split; [vm_compute; reflexivity|].
   vm_compute. repeat split.
+Qed.
+
+(* every middleware that asked before next was told what the handler is told *)
+Lemma pre_agrees pick m me wire pre ar ap o h vs hp : sound pick -> wf_mux m ->
+  serve pick m me wire pre ar ap = Some o -> o_out o = Handled h vs hp ->
+  (forall a, In a (o_pre o) -> a = (hp, vs)) /\ o_post o = hp /\
+  length (o_pre o) = asking (mws m) pre /\ o_ran o = rec_ids (mws m).
+Proof.
+  intros Hs Hm Es Eo. pose proof (serve_spec pick Hs m me wire pre ar ap Hm) as H.
+  destruct (set_path wire) as [[path raw]|]; [|congruence].
+  destruct H as (o' & Eo' & Hout). rewrite Es in Eo'. injection Eo' as <-. rewrite Eo in Hout.
+  destruct Hout as (Hran & r & capt & _ & _ & _ & _ & Ehp & Epost & Hpre).
+  split; [|split; [|split]].
+  - intros a Ha. rewrite Hpre in Ha. now apply repeat_spec in Ha.
+  - congruence.
+  - rewrite Hpre. apply repeat_length.
+  - exact Hran.
+Qed.
+
+(* regression: SmartRedirectSlashes looks at the string chi routes: GET /u/a%2F (value "a/" for
+   /u/{id}) reaches its handler; GET /u/a%2F/ is sent to /u/a%2F, the escaping kept *)
+Definition w_mux5 : mux :=
+  match use MSmart new_muxer with Some m => handle GET [Lit b_u; Var b_id] 0 m | None => new_muxer end.
+Definition w_ip5 : ipat := [ILit b_u; IVar b_id [x61; x2f]].                     (* id = "a/" *)
+
+Lemma w_mux5_reachable : reachable w_mux5.
+Proof.
+  unfold w_mux5. destruct (use MSmart new_muxer) as [m|] eqn:E; [|discriminate].
+  apply reach_handle; [|reflexivity]. eapply reach_use; [apply reach_new|exact E].
+Qed.
+
+Lemma smart_redirect_served pick : sound pick -> forall ar ap,
+  wf_ipat w_ip5 = true /\ routes w_mux5 = [{| r_meth := GET; r_pat := pat_of w_ip5; r_h := 0 |}] /\
+  (exists o, serve pick w_mux5 GET (build_url w_ip5) [] ar ap = Some o /\
+             o_out o = Handled 0 [(b_id, [x61; x2f])] (goa_render (pat_of w_ip5))) /\
+  (exists o, serve pick w_mux5 GET (build_url w_ip5 ++ [slash]) [] ar ap = Some o /\
+             o_out o = Redirected (build_url w_ip5)).
+Proof.
+  intros Hs ar ap. split; [reflexivity|]. split; [reflexivity|].
+  rewrite !(serve_single pick Hs w_mux5 _ eq_refl). split; eexists; split; vm_compute; reflexivity.
 Qed.
 
 (* non-vacuity material: three routes, a built request with an encoded slash and an empty catch-all *)
@@ -1404,43 +1453,4 @@ Lemma ex_facts :
 Proof.
   split; [reflexivity|]. split; [repeat (apply reach_handle; [|reflexivity]); apply reach_new|].
   split; [reflexivity|]. eexists. split; vm_compute; reflexivity.
-Qed.
-
-(* every middleware that asked before next was told what the handler is told *)
-Lemma pre_agrees pick m me wire pre ar ap o h vs hp : sound pick -> wf_mux m ->
-  serve pick m me wire pre ar ap = Some o -> o_out o = Handled h vs hp -> wire <> [] ->
-  (forall a, In a (o_pre o) -> a = (hp, vs)) /\ o_post o = hp /\
-  length (o_pre o) = asking (mws m) pre /\ o_ran o = rec_ids (mws m).
-Proof.
-  intros Hs Hm Es Eo Hne. pose proof (serve_spec pick Hs m me wire pre ar ap Hm) as H.
-  destruct (set_path wire) as [[path raw]|]; [|congruence].
-  destruct H as (o' & Eo' & Hout). rewrite Es in Eo'. injection Eo' as <-. rewrite Eo in Hout.
-  destruct Hout as (_ & Hran & r & capt & _ & _ & _ & _ & Ehp & Epost & Hpre). specialize (Hpre Hne).
-  split; [|split; [|split]].
-  - intros a Ha. rewrite Hpre in Ha. now apply repeat_spec in Ha.
-  - congruence.
-  - rewrite Hpre. apply repeat_length.
-  - exact Hran.
-Qed.
-
-(* SmartRedirectSlashes looks at the decoded path: GET /u/a%2F (value "a/" for /u/{id}) is
-   answered 301 to /u/a although chi would route it to /u/{id} *)
-Definition w_mux5 : mux :=
-  match use MSmart new_muxer with Some m => handle GET [Lit b_u; Var b_id] 0 m | None => new_muxer end.
-Definition w_ip5 : ipat := [ILit b_u; IVar b_id [x61; x2f]].                     (* id = "a/" *)
-
-Lemma w_mux5_reachable : reachable w_mux5.
-Proof.
-  unfold w_mux5. destruct (use MSmart new_muxer) as [m|] eqn:E; [|discriminate].
-  apply reach_handle; [|reflexivity]. eapply reach_use; [apply reach_new|exact E].
-Qed.
-
-Lemma smart_redirect_served pick : sound pick -> forall ar ap,
-  wf_ipat w_ip5 = true /\ routes w_mux5 = [{| r_meth := GET; r_pat := pat_of w_ip5; r_h := 0 |}] /\
-  captured (pat_of w_ip5) (build_url w_ip5) = Some (icaps idv w_ip5) /\
-  exists o, serve pick w_mux5 GET (build_url w_ip5) [] ar ap = Some o /\
-            o_out o = Redirected [x2f; x75; x2f; x61].                           (* "/u/a" *)
-Proof.
-  intros Hs ar ap. split; [reflexivity|]. split; [reflexivity|]. split; [vm_compute; reflexivity|].
-  rewrite (serve_single pick Hs w_mux5 _ eq_refl). eexists. split; vm_compute; reflexivity.
 Qed.
